@@ -109,6 +109,9 @@ fn check(scn: &Scenario, rep: &mut Report) {
     rep.add("stream_items_taken", out.streams.values().map(|s| s.2).sum::<u64>());
     rep.add("streams_attached", out.streams.values().filter(|s| s.0).count() as u64);
     rep.add("handle_invocations", out.log.len() as u64);
+    if scn.coop > 0 {
+        rep.count("cases_under_a_cooperative_budget");
+    }
     if scn.wake {
         rep.count("wake_driven_cases");
         rep.add("wake_driven_waker_firings", out.wakes);
@@ -214,6 +217,11 @@ pub fn run(cfg: &Cfg) -> Report {
         let nconn = rng.range(1, 3);
         let mut b = build_cuts(&mut rng, nconn, 4, true, k % 4 == 3);
         b.scn.wake = rng.chance(1, 3);
+        // every fifth scenario under a cooperative budget: after a few transport operations per poll every transport
+        // answers `Pending` until the server task has yielded (what tokio's sockets do after 128 operations)
+        if rng.chance(1, 5) {
+            b.scn.coop = rng.range(1, 9) as u32;
+        }
         let order = random_interleaving(&b.chains, &mut rng);
         let style = rng.below(3);
         b.scn.steps = order
